@@ -73,6 +73,15 @@ def main():
             h.sleeper = lambda r=r: time.sleep(0.0003) if r.random() < 0.15 else None
         res = {"ok": True}
         try:
+            if h.experiment is not None:
+                # an experiment: replication r of the model is the same run whether or not other replications were run
+                # before it on the same simulator, model and streams
+                for r_before in cfg.get("earlier_reps", []):
+                    h.update_seeds(r_before)
+                    if h.cmd("initialize") == "ok" and h.cmd("start") == "ok":
+                        h.wait_quiescent(30)
+                h.update_seeds(prog["experiment"]["rep"])
+                h.reset_logs()
             if h.cmd("initialize") != "ok":
                 res = {"ok": False, "why": "initialize"}
             else:
